@@ -170,6 +170,7 @@ namespace Givaro {
     template <class T>
     inline Array0<T>& Array0<T>::logcopy (const Array0<T>& src)
     {
+        if (this == &src) return *this;
         destroy();
         _psz = src._psz; _size = src._size;
         if (_psz !=0)
